@@ -1,4 +1,6 @@
+#[cfg(feature = "direct")]
 pub mod apreplay;
+#[cfg(feature = "direct")]
 pub mod apstress;
 pub mod c03;
 pub mod c05;
@@ -6,6 +8,7 @@ pub mod c06;
 pub mod c08;
 pub mod c10;
 pub mod c13;
+#[cfg(feature = "direct")]
 pub mod ident;
 pub mod limstress;
 pub mod oddcfg;
@@ -15,10 +18,12 @@ pub mod rpc;
 pub mod conn;
 pub mod connreplay;
 pub mod smoke;
+#[cfg(feature = "direct")]
 pub mod tables;
 pub mod teardown;
 pub mod tower;
 pub mod towermisc;
+#[cfg(feature = "direct")]
 pub mod wire;
 
 use serde_json::Value;
@@ -57,20 +62,26 @@ pub fn dispatch(args: &[String]) -> i32 {
         "c06" => c06::main(&a),
         "c08" => c08::main(&a),
         "teardown" => teardown::main(&a),
+        #[cfg(feature = "direct")]
         "apstress" => apstress::main(&a),
+        #[cfg(feature = "direct")]
         "replay-ap" => apreplay::replay(&a),
         "replay-conn" => connreplay::main(&a),
         "c10" => c10::main(&a),
         "c13" => c13::main(&a),
         "rpc" => rpc::main(&a),
+        #[cfg(feature = "direct")]
         "table-tiebreak" => tables::tiebreak(&a),
         "replay-inflight" => tower::replay_inflight(&a),
         "replay-auth" => tower::replay_auth(&a),
+        #[cfg(feature = "direct")]
         "replay-wire" => wire::replay(&a),
+        #[cfg(feature = "direct")]
         "replay-identity" => ident::replay(&a),
         "replay-codegen" => codegen::replay(&a),
         "codegen-cancel" => codegen::cancel(&a),
         "codegen-relay" => codegen::relay(&a),
+        #[cfg(feature = "direct")]
         "codegen-deadline" => codegen::deadline(&a),
         "replay-router" => router::replay(&a),
         "replay-rate" => tower::replay_rate(&a),
@@ -79,6 +90,12 @@ pub fn dispatch(args: &[String]) -> i32 {
         "limstress" => limstress::main(&a),
         "oddcfg" => oddcfg::main(&a),
         "replay-towermisc" => towermisc::replay(&a),
+        #[cfg(not(feature = "direct"))]
+        "apstress" | "replay-ap" | "table-tiebreak" | "replay-wire" | "replay-identity" | "codegen-deadline" => {
+            // built without the direct-drive wrappers (they do not compile against this tree)
+            print_summary(&serde_json::json!({"unavailable": format!("scenario {cmd} needs anemo::verif::direct, which does not build against this tree")}));
+            0
+        }
         other => {
             eprintln!("unknown scenario {other}");
             2
